@@ -83,46 +83,14 @@ theorem innerLoop_same (now : Time) (fuel : Nat) (d : Dev) (a : Action) (o : Ora
 
 /-! ### `stat_successful_connects` tells connections apart -/
 
-theorem connectOne_stat (c : CS) :
-    ((connectOne c).1.dev.conn = c.dev.conn ∧ (connectOne c).1.dev.statConnects = c.dev.statConnects) ∨
-    ((connectOne c).2 = true ∧ (connectOne c).1.dev.conn = 2 ∧ (connectOne c).1.dev.statConnects = c.dev.statConnects + 1) := by
-  unfold connectOne
-  split
-  · dsimp only
-    split
-    · rename_i fd fr ans ar _ _ _
-      rcases finishConnectOne_cases ({ c with env := { c.env with sockets := fr, connects := ar }, sys := c.sys ++ [Sys.socket fd, Sys.connect ans], dev := { c.dev with fd := some fd } } : CS) with ⟨h1, h2⟩ | ⟨h1, h2⟩
-      all_goals
-        generalize finishConnectOne _ = r at *
-        obtain ⟨c1, ok⟩ := r
-        simp only at h1 h2
-        subst h1
-        simp [h2]
-    · split <;> simp
-  · simp
-
 theorem tcpConnect_stat (c : CS) (h0 : c.dev.conn = 0) :
     (tcpConnect c).1.dev.statConnects = c.dev.statConnects ∧ (tcpConnect c).1.dev.conn ≠ 2 ∨
     (tcpConnect c).1.dev.statConnects = c.dev.statConnects + 1 ∧ (tcpConnect c).1.dev.conn = 2 := by
-  unfold tcpConnect
-  simp only [h0, bne_self_eq_false, Bool.false_eq_true, ↓reduceIte]
-  split
-  · left; exact ⟨rfl, by simp [h0]⟩
-  dsimp only
-  have h := connectOne_stat { c with dev := { c.dev with conn := 1, curAddr := true } }
-  have hc := (connectOne_cases { c with dev := { c.dev with conn := 1, curAddr := true } }).2.2.2.1
-  generalize connectOne { c with dev := { c.dev with conn := 1, curAddr := true } } = r at *
-  obtain ⟨c1, ok⟩ := r
-  simp only at h hc
-  cases ok
-  · simp only [Bool.false_eq_true, ↓reduceIte, Bool.not_false]
-    left; rcases h with h | h
-    · simp [h.2]
-    · simp at h
-  · simp only [↓reduceIte, hc, Bool.not_true, Bool.false_eq_true]
-    rcases h with h | h
-    · left; exact ⟨h.2, by rw [h.1]; simp⟩
-    · right; exact ⟨h.2.2, h.2.1⟩
+  rcases tcpConnect_tel c with ⟨⟨_, _, a3⟩, h | h | h⟩ | ⟨b1, _, _, b4⟩
+  · left; exact ⟨a3, by omega⟩
+  · left; exact ⟨a3, by omega⟩
+  · left; exact ⟨a3, by omega⟩
+  · right; exact ⟨b4, b1⟩
 
 theorem pipeConnect_stat (c : CS) (h0 : c.dev.conn = 0) :
     (pipeConnect c).1.dev.statConnects = c.dev.statConnects ∧ (pipeConnect c).1.dev.conn ≠ 2 ∨
@@ -213,12 +181,12 @@ theorem failAll_passRel (rest : List Action) (c : CS) (a : Action) (o : Oracle) 
   dsimp only
   split
   · rename_i h2
-    have hne : ({ c with dev := { c.dev with acts := [] } } : CS).dev.conn ≠ 0 := by
+    have hne : ({ c with dev := { c.dev with acts := [], xmStr := none, xmResult := false, xmUsed := false } } : CS).dev.conn ≠ 0 := by
       have : c.dev.conn = 2 := by simpa using h2
       show c.dev.conn ≠ 0
       omega
-    obtain ⟨h1, _, h3, h4⟩ := reconnectDev_clean { c with dev := { c.dev with acts := [] } } tmo hne
-    have hs := reconnectDev_stat { c with dev := { c.dev with acts := [] } } tmo
+    obtain ⟨h1, _, h3, h4⟩ := reconnectDev_clean { c with dev := { c.dev with acts := [], xmStr := none, xmResult := false, xmUsed := false } } tmo hne
+    have hs := reconnectDev_stat { c with dev := { c.dev with acts := [], xmStr := none, xmResult := false, xmUsed := false } } tmo
     refine .inr ⟨h1, h3, h4, ?_, ?_⟩
     · show c.dev.statConnects ≤ _
       rcases hs with hs | hs
@@ -299,11 +267,11 @@ theorem failAll_quiet (rest : List Action) (c : CS) (a : Action) (o : Oracle) (o
   dsimp only
   split
   · rename_i h2
-    have hne : ({ c with dev := { c.dev with acts := [] } } : CS).dev.conn ≠ 0 := by
+    have hne : ({ c with dev := { c.dev with acts := [], xmStr := none, xmResult := false, xmUsed := false } } : CS).dev.conn ≠ 0 := by
       have : c.dev.conn = 2 := by simpa using h2
       show c.dev.conn ≠ 0
       omega
-    obtain ⟨h1, h2, _, _⟩ := reconnectDev_clean { c with dev := { c.dev with acts := [] } } tmo hne
+    obtain ⟨h1, h2, _, _⟩ := reconnectDev_clean { c with dev := { c.dev with acts := [], xmStr := none, xmResult := false, xmUsed := false } } tmo hne
     exact fun _ => ⟨h1, h2⟩
   · exact h
 
@@ -443,9 +411,10 @@ theorem handleReady_up_stat (c : CS) (h : c.dev.conn ≠ 2) (h2 : (handleReady c
     · rw [readyRead_conn, hn.2.2.1] at h2; exact h h2
   · obtain ⟨_, hh⟩ := readyWrite_skip c hskip
     simp only [hskip, ↓reduceIte] at h2 ⊢
-    rcases hh with ⟨ha, hb, hc, hd, he⟩ | ⟨ha, hb, _⟩
+    rcases hh with ⟨ha, hb, hc, hd, he⟩ | ⟨ha, hb, _⟩ | ⟨ha, hb, _⟩
     · simp only [ha, Bool.false_eq_true, ↓reduceIte]; exact he
     · simp only [ha, ↓reduceIte] at h2; omega
+    · simp only [ha, Bool.false_eq_true, ↓reduceIte] at h2; omega
 
 /-- pass, stage 1, established connection -/
 theorem ppReady_connected (d : Dev) (env : Env) (h2 : d.conn = 2) :
@@ -526,14 +495,12 @@ theorem readyWrite_toBuf (c : CS) :
     (readyWrite c).1.dev.toBuf = c.dev.toBuf ∨ (readyWrite c).1.dev.toBuf = c.dev.toBuf.drop c.env.wcap := by
   unfold readyWrite
   dsimp only
-  rcases finishConnectOne_cases c with ⟨h1, h2⟩ | ⟨h1, h2⟩
-  all_goals
-    generalize finishConnectOne c = r at *
-    obtain ⟨c1, ok⟩ := r
-    simp only at h1 h2
-    subst h1
-    repeat' split
-    all_goals simp_all [enqueueLogin]
+  split
+  · split
+    · rename_i h1; left; exact (readyFinish_facts c (by simpa using h1)).2.2.2.2.1
+    · repeat' split
+      all_goals simp_all
+  · left; rfl
 
 theorem readTaken_eq (c : CS) (bs : Bytes) (h1 : ¬ (c.dev.conn == 0) = true) (h2 : ¬ c.dev.fd.isNone = true)
     (h3 : ¬ (c.env.revents &&& 4 != 0 || c.env.revents &&& 8 != 0 || c.env.revents &&& 16 != 0) = true)
@@ -803,8 +770,7 @@ theorem passTaken_of_connecting_pollout (d : Dev) (env : Env) (h1 : d.conn = 1) 
       have e2 : (ppC0 d env).dev.conn = 1 := h1
       have h' : (env.revents &&& 2 != 0) = true := by simpa using h
       simp only [e1, e2, h', ↓reduceIte, beq_self_eq_true]
-      repeat' split
-      all_goals rfl
+      exact (readyFinish_facts _ e2).1
     simp only [hskip, Bool.or_true, Bool.true_or, ↓reduceIte]
   · rfl
 
